@@ -52,49 +52,33 @@ Lemma f32_via_f64_snan b : in_u 32 b -> is_snan32 b = true ->
 Proof. unfold in_u. codec_unfold. intros H. case_ifs; lia. Qed.
 
 (* ---------------------------------------------------------------- round trips *)
-(* host -> guest -> host and (read right to left) any mix of the reflective and the stack-based forms *)
-Lemma roundtrip st st' k v : go_wf k v -> (k = KF32 -> st = Api /\ st' = Api) ->
-  decode st k (encode st' k v) = v.
-Proof.
-  intros Hw Hf. destruct k; try (destruct st, st'; codec_unfold; goint_unfold; lia).
-  destruct (Hf eq_refl) as [-> ->]. codec_unfold. goint_unfold. lia.
-Qed.
+(* host -> guest -> host and (read right to left) any mix of the reflective and the stack-based forms,
+   every kind - float32 included, for ALL bit patterns (F07 repaired) *)
+Lemma roundtrip st st' k v : go_wf k v -> decode st k (encode st' k v) = v.
+Proof. intros Hw. destruct k, st, st'; codec_unfold; goint_unfold; lia. Qed.
 
 (* guest -> host -> guest: the echo direction, on well-formed slots *)
-Lemma roundtrip_slot st st' k s : slot_wf (type_of k) s -> (k = KF32 -> st = Api /\ st' = Api) ->
-  encode st' k (decode st k s) = s.
-Proof.
-  intros Hw Hf. destruct k; try (destruct st, st'; codec_unfold; goint_unfold; lia).
-  destruct (Hf eq_refl) as [-> ->]. codec_unfold. goint_unfold. lia.
-Qed.
+Lemma roundtrip_slot st st' k s : slot_wf (type_of k) s -> encode st' k (decode st k s) = s.
+Proof. intros Hw. destruct k, st, st'; codec_unfold; goint_unfold; lia. Qed.
 
-Lemma f32_roundtrip st st' v : in_u 32 v -> is_snan32 v = false ->
-  decode st KF32 (encode st' KF32 v) = v /\ encode st' KF32 (decode st KF32 v) = v.
+(* regression (F07): the float64 round trip callGoFunc performed before the repair turned the signalling NaN
+   0x7fa00000 into 0x7fe00000 - and every signalling NaN into the quiet NaN with the same sign and payload - while
+   the current model (and code) passes it unchanged in both directions *)
+Example C08_snan_quieted_before_fix :
+  is_snan32 2141192192 = true /\ f32_via_f64 2141192192 = 2145386496 /\
+  (forall v, in_u 32 v -> is_snan32 v = true -> f32_via_f64 v = v + 4194304 /\ f32_via_f64 v <> v) /\
+  (forall v, in_u 32 v -> is_snan32 v = false -> f32_via_f64 v = v) /\
+  decode Refl KF32 2141192192 = 2141192192 /\ encode Refl KF32 2141192192 = 2141192192.
 Proof.
-  intros Hv Hs. pose proof (f32_via_f64_fix v Hv Hs) as E.
-  assert (W : wrap 32 v = v) by (apply wrap_small; exact Hv).
-  destruct st, st'; cbn [decode encode refl_param refl_result api_encode api_decode];
-    rewrite ?E, ?W, ?E; auto.
-Qed.
-
-Lemma snan_witness :
-  go_wf KF32 2141192192 /\ is_snan32 2141192192 = true /\
-  decode Refl KF32 2141192192 = 2145386496 /\ encode Refl KF32 2141192192 = 2145386496 /\
-  decode Refl KF32 (encode Api KF32 2141192192) <> 2141192192 /\
-  view VF32 (encode Refl KF32 (decode Api KF32 2141192192)) <> 2141192192.
-Proof. splits; try (vm_compute; reflexivity); try (vm_compute; discriminate). unfold go_wf, in_u. lia. Qed.
-
-(* every signalling NaN is changed by the reflective forms, in both directions *)
-Lemma snan_always v : in_u 32 v -> is_snan32 v = true ->
-  decode Refl KF32 v = v + 4194304 /\ encode Refl KF32 v = v + 4194304.
-Proof.
-  intros Hv Hs. pose proof (f32_via_f64_snan v Hv Hs) as (E & _).
-  cbn [decode encode refl_param refl_result]. rewrite wrap_small by exact Hv. auto.
+  split; [vm_compute; reflexivity|]. split; [vm_compute; reflexivity|].
+  split; [intros v Hv Hs; pose proof (f32_via_f64_snan v Hv Hs) as (A & B & _); auto|].
+  split; [exact f32_via_f64_fix|].
+  split; vm_compute; reflexivity.
 Qed.
 
 (* ---------------------------------------------------------------- slots *)
 Lemma encode_slot_wf st k v : go_wf k v -> slot_wf (type_of k) (encode st k v).
-Proof. intros Hw. destruct st, k; codec_unfold; goint_unfold; case_ifs; lia. Qed.
+Proof. intros Hw. destruct st, k; codec_unfold; goint_unfold; lia. Qed.
 
 (* the amd64 trampoline stores only the low half of a 32-bit argument into the Go slice: whatever the
    upper half holds, both decoders ignore it *)
@@ -265,6 +249,6 @@ Proof. splits; vm_compute; reflexivity. Qed.
 Example roundtrip_examples :
   go_wf KI32 (-1) /\ encode Refl KI32 (-1) = 4294967295 /\ decode Refl KI32 4294967295 = -1 /\
   go_wf KI64 (-9223372036854775808) /\ encode Api KI64 (-9223372036854775808) = 9223372036854775808 /\
-  go_wf KF32 2143289344 /\ is_snan32 2143289344 = false /\ decode Refl KF32 2143289344 = 2143289344 /\
-  go_wf KF32 1 /\ is_snan32 1 = false /\ decode Refl KF32 (encode Refl KF32 1) = 1.
+  go_wf KF32 2141192192 /\ is_snan32 2141192192 = true /\ decode Refl KF32 (encode Refl KF32 2141192192) = 2141192192 /\
+  go_wf KF32 1 /\ decode Refl KF32 (encode Refl KF32 1) = 1.
 Proof. splits; try (vm_compute; reflexivity); unfold go_wf, in_u, in_s; lia. Qed.
